@@ -211,7 +211,11 @@ def paren_variants(tokens):
             (t.replace(".", "", 1).isdigit() and "." in t)
         if not lit:
             continue
-        if k > 0 and tokens[k - 1] == "require":
+        if k > 0 and tokens[k - 1] in ("require", "-", "+"):
+            # after a sign the literal is folded into a signed literal,
+            # which is a different production from unary minus on an
+            # expression (the statement does not fix how `is P` predicates
+            # bind relative to unary minus)
             continue
         yield tokens[:k] + ["(", t, ")"] + tokens[k + 1:]
         yield tokens[:k] + ["(", "(", t, ")", ")"] + tokens[k + 1:]
